@@ -23,8 +23,10 @@ MdMerge(a, b) == {e \in a : ~\E f \in b : f[1] = e[1]} \cup b
 
 ----------------------------------------------------------------------------
 \* node.py:448-466: `res` stays the result, `oth` loses
+\* (_combine_safety: unsafety inherited by `oth` counts as well - not so before the fix, mutation MergeLaundersUnsafe)
 ReplaceOtherFlags(res, oth) ==
     [res EXCEPT !.safe  = IF oth.safe # "N" THEN AndTri(NotNoneOr(res.safe, "T"), oth.safe) ELSE @,
+                !.isafe = IF oth.isafe = "F" /\ ~Mut("MergeLaundersUnsafe") THEN "F" ELSE @,
                 !.dsafe = IF DefaultSafeOverwrite THEN oth.dsafe ELSE AndTri(res.dsafe, oth.dsafe),
                 !.md    = IF Mut("MdSpreadSwapped") THEN MdMerge(res.md, oth.md) ELSE MdMerge(oth.md, res.md)]
 
@@ -33,8 +35,12 @@ ReplaceSelfFlags(res, oth) ==
     [res EXCEPT !.pr    = oth.pr,
                 !.del   = oth.del,
                 !.safe  = IF oth.safe # "N" THEN AndTri(NotNoneOr(res.safe, "T"), oth.safe) ELSE @,
+                !.isafe = IF oth.isafe = "F" /\ ~Mut("MergeLaundersUnsafe") THEN "F" ELSE @,
                 !.dsafe = IF DefaultSafeOverwrite THEN oth.dsafe ELSE AndTri(res.dsafe, oth.dsafe),
                 !.md    = MdMerge(res.md, oth.md)]
+
+\* _replace_other ends with `ret._propagate_implicit_values()` since the fix
+PropagateO(n) == IF Mut("MergeLaundersUnsafe") THEN n ELSE Propagate(n)
 
 \* node.py:468-505 _maybe_promote: `res` is about to replace `oth`; when `oth`
 \* has the more specific class, `oth`'s object survives with `res`'s content
@@ -49,7 +55,11 @@ Promote(res, oth) ==
     LET kw   == ChildKw([oth EXCEPT !.ch = <<>>])
         keys == IF res.k = "list" /\ IsFn(oth) THEN [i \in 1..Len(res.ch) |-> IKey(i - 1)] ELSE NKeys(res)
         chs  == [i \in 1..Len(res.ch) |-> <<keys[i], Adopt(res.ch[i][2], kw, FALSE, PrNone)>>]
-    IN [res EXCEPT !.k = oth.k, !.fn = oth.fn, !.ref = IF IsFn(oth) THEN oth.ref ELSE @, !.ch = chs]
+    \* node.py _take_over: the promoted object takes over the attributes of `res`, but stays unsafe if it inherited unsafety
+    \* (mutation MergeLaundersUnsafe: the code before that fix, `other.__dict__.update(self.__dict__)` and nothing else, which
+    \* let a safe list merged onto an unsafe !call / !bind make it safe)
+    IN [res EXCEPT !.k = oth.k, !.fn = oth.fn, !.ref = IF IsFn(oth) THEN oth.ref ELSE @, !.ch = chs,
+                   !.isafe = IF oth.isafe = "F" /\ ~Mut("MergeLaundersUnsafe") THEN "F" ELSE @]
 
 \* a merge result: the node and which of the two objects it is ("self"/"other")
 R(n, id) == [n |-> n, id |-> id]
@@ -58,19 +68,19 @@ R(n, id) == [n |-> n, id |-> id]
 \* from the point of view of Merge(self, other): who is the result object
 FinishSelfWins(self, other) ==          \* self._replace_other(other, promote)
     LET s == ReplaceOtherFlags(self, other)
-    IN IF Promotes(s, other) THEN R(Promote(s, other), "other") ELSE R(s, "self")
+    IN IF Promotes(s, other) THEN R(PropagateO(Promote(s, other)), "other") ELSE R(PropagateO(s), "self")
 FinishOtherLook(self, other) ==         \* self._replace_self(other, promote)
     LET s == ReplaceSelfFlags(self, other)
     IN IF Promotes(s, other) THEN R(Propagate(Promote(s, other)), "other") ELSE R(Propagate(s), "self")
 FinishOtherObject(self, other) ==       \* other._replace_other(self, promote)  (self was emptied)
     LET o == ReplaceOtherFlags(other, self)
-    IN IF Promotes(o, self) THEN R(Promote(o, self), "self") ELSE R(o, "other")
+    IN IF Promotes(o, self) THEN R(PropagateO(Promote(o, self)), "self") ELSE R(PropagateO(o), "other")
 
 \* node.py:328-333 the leaf rule
 LeafRule(self, other) ==
     IF HasPriorityOver(self, other, FALSE)
-    THEN R(ReplaceOtherFlags(self, other), "self")
-    ELSE R(ReplaceOtherFlags(other, self), "other")
+    THEN R(PropagateO(ReplaceOtherFlags(self, other)), "self")
+    ELSE R(PropagateO(ReplaceOtherFlags(other, self)), "other")
 
 ----------------------------------------------------------------------------
 \* composed.py:339-343 / node.py:394-398 _require_all_new: first offending path
@@ -164,9 +174,9 @@ Merge(self, other, path) ==
          \* from ConfigScalar(str) counts - plain strings, but also !xref, !prev, !import, !eval and f-string nodes)
          IF HasPriorityOver(other, self, TRUE)
          THEN R(Propagate(ReplaceSelfFlags([self EXCEPT !.fn = StrOf(other), !.ref = ImportMark(other), !.ch = <<>>], other)), "self")
-         ELSE R(ReplaceOtherFlags(self, other), "self")
+         ELSE R(PropagateO(ReplaceOtherFlags(self, other)), "self")
     ELSE IF IsFn(self) /\ IsFn(other) /\ self.fn # other.fn /\ ~HasPriorityOver(other, self, TRUE)
-    THEN R(ReplaceOtherFlags(self, other), "self")                 \* function.py:67-70
+    THEN R(PropagateO(ReplaceOtherFlags(self, other)), "self")     \* function.py:67-70
     ELSE
     LET self0 == IF IsFn(self) /\ IsFn(other) /\ self.fn # other.fn
                  THEN [self EXCEPT !.fn = other.fn, !.ref = other.ref, !.ch = IF EffDel(other) THEN <<>> ELSE @]
